@@ -36,6 +36,11 @@ def run(ctx):
         ctx.run_rule("R3-exactly-once", r3_once, F)
         ctx.run_rule("R4-table-coherence", c07.r5_slots, F, "C14")
         ctx.run_rule("R5-arithmetic", r5_arith, F)
+        # a server over Arc<Vfs> reaches the translation of the request context only if the wrapper forwards it
+        from rules import c02, c19
+        ctx.run_rule("R4-arc-forward", c02.r4_arc, F, {"id_remap", "id_remap_with_nodeid"})
+        # mappings survive save/restore slot by slot (C19.R2: restore(save(m)) == m, None stays None, Some stays Some)
+        ctx.run_rule("R2-state-roundtrip", c19.r2_state, F)
     finally:
         vf.NOUPD[0] = False
     A = ctx.facts("A", required=False)
